@@ -131,8 +131,16 @@ PLANS = {
                  invariants=G_ALL, budget=60, variants=[("plain", k) for k in
                                                          ("plain", "subdir", "spaces", "unicode", "dashy", "quoted")],
                  all_variants=True),
+            # notes written by the rewriting commands, including episodes that stop on a conflict
+            dict(name="conflicts", consts=consts(alphabet=CONFLICT, steps=9, commits=6, uid=4, lines=4,
+                                                 sessions=("S1",)), invariants=G_ALL, budget=120,
+                 variants=[("plain", "plain"), ("plain", "spaces"), ("crlf", "unicode")], per_tag=2),
         ],
         "thorough": [
+            dict(name="conflicts", consts=consts(files=("f", "g"), alphabet=CONFLICT, steps=10, commits=7, uid=5, lines=4,
+                                                 sessions=("S1",)), invariants=G_ALL, budget=800,
+                 variants=[("plain", k) for k in ("plain", "subdir", "spaces", "unicode", "dashy", "quoted")],
+                 per_tag=2, timeout=3000, workers=12),
             dict(name="mixed", consts=consts(files=("f", "g"), alphabet=MIXED, steps=6, commits=3, lines=3, uid=5),
                  invariants=G_ALL, budget=400, variants=[(r, k) for r in ("plain", "hostile") for k in
                                                           ("plain", "subdir", "spaces", "unicode", "dashy", "quoted")],
